@@ -1,3 +1,4 @@
+import Ntrip.Guards.FramingReads
 import Ntrip.Guards.TimeConsts
 import Ntrip.Properties.C06
 import Ntrip.Generated.Consts
@@ -49,5 +50,8 @@ theorem tie_guards_time : type_of% Ntrip.Guards.time := Ntrip.Guards.time
 
 /-- Tie T1 (constants): the literals of the time model are the constants of the source. -/
 theorem tie_time_consts : type_of% Ntrip.Guards.time_consts := Ntrip.Guards.time_consts
+
+/-- Tie T1: the bit fields the framing code reads, their widths and signedness. -/
+theorem tie_framing_reads : type_of% Ntrip.Guards.framing_reads := Ntrip.Guards.framing_reads
 
 end Ntrip.C06
